@@ -164,6 +164,29 @@ def index_order(c):
                 [700 + k for k in sorted(idx[:2])], detail=(snapshot(root.one), snapshot(root.other)))
 
 
+@obligation('C03.pair_order.argument_names', targets=['spyne.server.wsgi:WsgiApplication.is_wsdl_request',
+                                                     'spyne.server.wsgi:WsgiApplication.__call__'],
+            bounded="one signature of four primitives whose names start with or contain words the transport gives a "
+                    "meaning to elsewhere (wsdl_location, wsdlx, xsd_url, the method's own name) x all 24 orders of the pairs",
+            desc="the user function receives the values whatever the order of the pairs and whatever the arguments are "
+                 "called: only the exact key 'wsdl' asks for the interface document")
+def argument_names(c):
+    got = []
+
+    class NSvc(ServiceBase):
+        @rpc(Unicode, Integer, Unicode, Integer, _returns=Unicode)
+        def named(ctx, wsdl_location, wsdlx, xsd_url, named):
+            got.append((wsdl_location, wsdlx, xsd_url, named))
+            return 'ok'
+    app = Application([NSvc], TNS, in_protocol=HttpRpc(), out_protocol=HttpRpc())
+    pairs = [('wsdl_location', 'loc'), ('wsdlx', '5'), ('xsd_url', 'u'), ('named', '7')]
+    perm = c.choose(list(itertools.permutations(range(4))), 'pair_order')
+    qs = '&'.join('%s=%s' % pairs[i] for i in perm)
+    out, seen, body = _get(c, WsgiApplication(app), '/named', qs)
+    c.check('callable_returns', out.returned, detail=repr(out))
+    c.check('user_function_called_once_with_the_values', got == [('loc', 5, 'u', 7)], detail=(qs, got, seen[:1], (body or b'')[:80]))
+
+
 def _objects():
     s1 = Sub(x=1, ys=[1, 2, 3])
     s2 = Sub(x=2, ys=[])
@@ -217,6 +240,49 @@ def roundtrip(c):
         c.check('equal_object', norm(want) == norm(got), detail=(norm(want), norm(got)))
 
 
+@obligation('C03.roundtrip.delimiters_and_helper', targets=['spyne.util.dictdoc:get_object_as_simple_dict',
+                                                            'spyne.protocol.dictdoc.simple:SimpleDictDocument.object_to_simple_dict',
+                                                            'spyne.protocol.dictdoc.simple:SimpleDictDocument.simple_dict_to_object'],
+            bounded="hierarchy delimiters '.', '_', '/', '__' x 3 object shapes; the public helper get_object_as_simple_dict "
+                    "called twice in a row with every ordered pair of delimiters (the default given or omitted)",
+            desc="the flattened form produced for an object -- by the protocol or by the public helper, whatever delimiter was "
+                 "used in an earlier call -- uses the delimiter asked for and maps back to an equal object")
+def delimiters_and_helper(c):
+    from spyne.util.dictdoc import get_object_as_simple_dict
+    name = c.choose(['nested', 'deep', 'renamed_deep'], 'shape')
+    obj = _objects()[name]
+    first = c.choose(['.', '_', '/', '__', None], 'first_call_delimiter')
+    second = c.choose(['.', '_', '/', None], 'second_call_delimiter')
+
+    def norm(d):
+        if isinstance(d, dict):
+            return {k: norm(v) for k, v in d.items() if norm(v) not in (None, [], {})}
+        if isinstance(d, list):
+            return [norm(x) for x in d]
+        return d
+    for step, delim in (('first', first), ('second', second)):
+        out = c.run(get_object_as_simple_dict, obj, Root) if delim is None else c.run(get_object_as_simple_dict, obj, Root, delim)
+        c.check('helper_returns[%s]' % step, out.returned, detail=repr(out))
+        if not out.returned:
+            return
+        flat = out.value
+        d = delim or '.'
+        ref = HttpRpc(hier_delim=d).object_to_simple_dict(Root, obj)
+        c.check('helper_uses_the_delimiter_asked_for[%s]' % step, sorted(flat) == sorted(ref), detail=(d, sorted(flat)[:6], sorted(ref)[:6]))
+        doc = {}
+        for k, v in flat.items():
+            if v == 'empty':
+                doc[k] = ['empty']
+            elif isinstance(v, list):
+                doc[k] = [None if x is None else str(x) for x in v]
+            else:
+                doc[k] = [str(v)]
+        prot = HttpRpc(hier_delim=d)
+        o2 = c.run(prot.simple_dict_to_object, None, doc, Root)
+        c.check('maps_back_to_an_equal_object[%s]' % step, o2.returned and norm(snapshot(o2.value)) == norm(snapshot(obj)),
+                detail=(d, repr(o2)[:200]))
+
+
 QS_CASES = [
     ('a=1&b=2', [('a', ['1']), ('b', ['2'])]),
     ('b=2&a=1&b=3', [('b', ['2', '3']), ('a', ['1'])]),
@@ -246,12 +312,18 @@ def parse_qs(c):
 
 
 @obligation('C03.primitive_return', targets=['spyne.protocol.http:HttpRpc.serialize'],
-            bounded="integer / text / decimal / date / bytes results, text types with a declared encoding (utf-16, latin-1, utf-8)",
+            bounded="integer / text / decimal / date / bytes / boolean / double / duration results incl. the zero, false and "
+                    "empty value of each, text types with a declared encoding (utf-16, latin-1, utf-8)",
             desc="a single primitive return value is sent as its exact text or bytes")
 def primitive_return(c):
     import datetime
     import decimal
+    from spyne.model.primitive import Boolean, Double, Duration
     T, val, want = c.choose([(Integer, 2 ** 70, b'1180591620717411303424'), (Unicode, u'hé &=;', u'hé &=;'.encode('utf8')),
+                             # values that are false in a boolean context are values like any other
+                             (Integer, 0, b'0'), (Integer, -1, b'-1'), (Boolean, False, b'false'), (Boolean, True, b'true'),
+                             (Double, 0.0, b'0.0'), (Decimal, decimal.Decimal('0'), b'0'),
+                             (Duration, datetime.timedelta(0), b'PT0S'), (Unicode, u'', b''),
                              (Decimal, decimal.Decimal('1.50'), b'1.50'), (Date, datetime.date(2020, 2, 29), b'2020-02-29'),
                              (ByteArray, [b'\x00\xff', b'raw'], b'\x00\xffraw'),
                              # a text type that declares its own encoding is sent in that encoding
@@ -305,8 +377,13 @@ def out_headers(c):
         def f(ctx, i):
             ctx.out_header = RespHeader(**{'Expires': WHEN[i], 'X-Count': 2 ** 40 + i, 'X-Name': 'name-%d' % i})
             return u'case %d' % i
+
+        @rpc(_returns=Unicode)
+        def plain(ctx):
+            return u'no headers set'           # declares the header class (service level) but sets nothing
     app = Application([HSvc], TNS, in_protocol=HttpRpc(), out_protocol=HttpRpc())
-    out, seen, body = _get(c, WsgiApplication(app), '/f', 'i=%d' % n)
+    wsgi_app = WsgiApplication(app)
+    out, seen, body = _get(c, wsgi_app, '/f', 'i=%d' % n)
     c.check('callable_returns', out.returned, detail=repr(out))
     c.check('status_200', bool(seen) and seen[0][0].startswith('200'), detail=seen)
     if not seen:
@@ -319,3 +396,10 @@ def out_headers(c):
     c.check('number_and_text_headers_verbatim', headers.get('X-Count') == str(2 ** 40 + n) and headers.get('X-Name') == 'name-%d' % n,
             detail=headers)
     c.check('body_is_the_result', body == b'case %d' % n, detail=body)
+    # the next response of the same process carries only its own headers
+    out2, seen2, body2 = _get(c, wsgi_app, '/plain', '')
+    c.check('later_response_returns', out2.returned and bool(seen2) and seen2[0][0].startswith('200') and body2 == b'no headers set',
+            detail=(repr(out2), seen2[:1], body2))
+    if seen2:
+        h2 = dict(seen2[0][1])
+        c.check('earlier_header_values_do_not_reappear', not any(k in h2 for k in ('Expires', 'X-Count', 'X-Name')), detail=h2)
